@@ -265,7 +265,8 @@ def _validate(ctx, merged):
         ctx.violation('acceptor-rejects', case, detail=d,
                       sig=dict(clause='acceptor-rejects', failed=','.join(d.get('failed_clauses', [])) or '?',
                                mode=case['mode']))
-    if merged['counters'].get('deviations_not_kept'):
+    # deviations beyond the cap were not judged: if none of the judged ones was rejected the run cannot conclude
+    if merged['counters'].get('deviations_not_kept') and not ctx.violations:
         raise common.MachineryError('too many deviating executions to validate (%d dropped)' %
                                     merged['counters']['deviations_not_kept'])
 
